@@ -773,8 +773,4 @@ def o_c10(tr):
                 if m["cwnd"] >= 2**31:
                     bad.append((f"e2e:c10:{cc}:cwnd-overflow", f"endpoint {ep}: congestion window {m['cwnd']}"))
                 last = m
-            elif v[0] == "sent" and last is not None:
-                _, t, sp, pn, ln, mode, ccp, ae = v
-                if ccp and mode == "Normal" and last["bif"] >= last["cwnd"] and last["bif"] > 0:
-                    bad.append((f"e2e:c10:{cc}:sent-over-window", f"endpoint {ep}: congestion-controlled {sp} packet {pn} sent in Normal mode with bytes_in_flight {last['bif']} >= cwnd {last['cwnd']}"))
     return bad
